@@ -168,6 +168,23 @@ func fDouble(v interface{}) (interface{}, error) {
 }
 func fID(v interface{}) (interface{}, error)  { return v, nil }
 func fErr(v interface{}) (interface{}, error) { return nil, errBoom }
+
+// fInnerErr returns, as it is, the runtime error of an inner retrieval that fails (an error
+// value of one of the library's own exported types).
+func fInnerErr(v interface{}) (interface{}, error) {
+	_, err := jsonpath.Retrieve(`$.zz.yy`, map[string]interface{}{"zz": 1.0})
+	return nil, err
+}
+
+// fAccessor returns an Accessor value of its own (what a function gets from a nested
+// accessor-mode retrieval): to the library this is an opaque value like any other.
+func fAccessor(v interface{}) (interface{}, error) {
+	return jsonpath.Accessor{Get: func() interface{} { return v }, Set: func(interface{}) {}}, nil
+}
+
+// fNil returns nil (a JSON null) for every argument; fBox wraps its argument in a new array.
+func fNil(v interface{}) (interface{}, error) { return nil, nil }
+func fBox(v interface{}) (interface{}, error) { return []interface{}{v}, nil }
 func gList(vs []interface{}) (interface{}, error) {
 	return append([]interface{}{}, vs...), nil
 }
@@ -197,7 +214,7 @@ func fReenter(v interface{}) (interface{}, error) {
 
 // FilterFuncs and AggregateFuncs: base behaviours; names with a digit suffix are aliases
 // (f, f1, f2, f3 ...) so that every occurrence in a path can be told apart in call logs.
-var baseFilter = map[string]func(interface{}) (interface{}, error){"f": fDouble, "id": fID, "e": fErr, "fre": fReenter}
+var baseFilter = map[string]func(interface{}) (interface{}, error){"f": fDouble, "id": fID, "e": fErr, "fre": fReenter, "nl": fNil, "box": fBox, "ie": fInnerErr, "acc": fAccessor}
 var baseAggregate = map[string]func([]interface{}) (interface{}, error){"g": gList, "cnt": gCnt, "eg": gErr, "first": gFirst, "gre": gReenter, "all": gAll}
 
 // Env is a matched pair: a model function table and a library Config, both recording.
